@@ -18,6 +18,9 @@ Decided structurally:
   C16.6 every leaf position is visited: in the leaves loop no path through an iteration
         returns to the loop header without having handed that leaf to the leaf check (a
         skipped position is never bound, so later trees may disagree on it unnoticed).
+  C16.7 the leaf label is only ever used to *build* a memo key (`<label> + <dim>.name`): nothing takes labelled keys apart again
+        (`key.startswith(label)`, `key[len(label):]`, `removeprefix`) -- that is how a '?' axis comes to be seen under its bare
+        name and to interact with the plain axis of the same name.
 Not decided: agreement of sizes across trees (value level).
 """
 from __future__ import annotations
@@ -48,6 +51,11 @@ def run(ctx: RuleContext):
     ctx.sub(check_errors, ctx, r)
     ctx.sub(check_label_template, ctx, r, cg)
     ctx.sub(check_every_leaf_visited, ctx, r, cg)
+    ctx.sub(check_label_only_builds_keys, ctx, r)
+    # the '?' label is the position of the leaf in the list the loop runs over: that list must be the flatten result itself
+    from .c08 import check_leaves_single_source
+
+    ctx.reuse("C16.6", check_leaves_single_source, ctx, "C16.6")
 
 
 # ------------------------------------------------------------------------ C16.2
@@ -500,3 +508,50 @@ def check_every_leaf_visited(ctx, r, cg):
                 ctx.ok("C16.6", f.qualname, f"every iteration of the leaves loop passes `{leafvar}` to the leaf check before the next one starts")
     ctx.counters["leaves_loops"] = n_loops
     ctx.floor("C16.6", "leaves_loops", 1)
+
+
+# ------------------------------------------------------------------------ C16.7
+def check_label_only_builds_keys(ctx, r):
+    m = ctx.model
+    n = 0
+    for f in m.all_functions(include_typeguard=False):
+        if f.module.short == "_storage":
+            continue
+        calls = [c for c in ast.walk(f.node) if isinstance(c, ast.Call)]
+        getters = []
+        for c in calls:
+            try:
+                if _label_getter_kind(ctx, r, f, c) == "getter":
+                    getters.append(c)
+            except AnalysisError:
+                continue
+        if not getters:
+            continue
+        ctx.saw(f)
+        parents = {}
+        for p_ in ast.walk(f.node):
+            for c_ in ast.iter_child_nodes(p_):
+                parents[id(c_)] = p_
+        for gcall in getters:
+            n += 1
+            uses = [gcall]
+            p_ = parents.get(id(gcall))
+            if isinstance(p_, ast.Assign) and p_.value is gcall and len(p_.targets) == 1 and isinstance(p_.targets[0], ast.Name):
+                nm = p_.targets[0].id
+                uses = [x for x in ast.walk(f.node) if isinstance(x, ast.Name) and x.id == nm and isinstance(x.ctx, ast.Load)]
+            for u in uses:
+                pu = parents.get(id(u))
+                if isinstance(pu, ast.BinOp) and isinstance(pu.op, ast.Add) and pu.left is u:
+                    continue  # <label> + name: a key is built
+                if isinstance(pu, ast.JoinedStr) or isinstance(pu, ast.FormattedValue):
+                    continue  # formatted into a key / a message
+                if isinstance(pu, ast.Assign) and pu.value is u:
+                    continue
+                if isinstance(pu, ast.Expr):
+                    continue  # called for its AnnotationError only
+                ctx.bad("C16.7", f, pu if pu is not None else u, f"the leaf label is used by `{short(pu if pu is not None else u, 60)}`, not to build a memo key: labelled keys are being taken apart / compared, "
+                        "which lets a '?' axis be seen under its bare name (and interact with the plain axis of that name)", construct=f"leaf label used other than as a key prefix in {f.name}")
+    ctx.counters["label_reads"] = n
+    ctx.floor("C16.7", "label_reads", 2)
+    if not any(fd.rule == "C16.7" for fd in ctx.findings):
+        ctx.ok("C16.7", "_array_types", f"all {n} reads of the leaf label build a memo key (`<label> + <dim>.name`)")
